@@ -106,6 +106,9 @@ def design(ctx):
         "spec_informational": "the nodirsync variant satisfies OldOrNew/NoEarlyExposure (C06) and violates only the "
                               "stronger DurableWhenDone; the good variant satisfies all three",
     }
+    if any3_states:
+        info["tlc_constants"]["AnySpec_3names"] = {"AnyNames": ["target", "tmp", "x"], "AnyMaxSteps": 9,
+                                                   "other": "as AnySpec"}
     return info, mc.distinct + anyr.distinct + any3_states, mc.generated + anyr.generated + any3_trans
 
 
